@@ -81,6 +81,10 @@ void *rs_malloc(size_t req_size)
 void *rs_calloc(size_t nmemb, size_t size)
 {
 	size_t tot = nmemb * size;
+	if(unlikely(size && tot / size != nmemb)) { // nmemb * size does not fit a size_t
+		errno = ENOMEM;
+		return NULL;
+	}
 	void *ret = rs_malloc(tot);
 
 	if(likely(ret))
